@@ -120,6 +120,13 @@ def check_case(case):
         return fail("depends-on-clock", "REQUIRE_PARTS accepts the string at one reference time only")
     if present is not None and (a is not None or b is not None):
         lacking = [p for p in required if p not in present]
+        # the premise "the string states exactly these parts" only holds if the library reads the written parts the way they
+        # were constructed (fr 'sept' is rewritten to 7 by a simplification and read as a day: a C05 finding, not a C10 one)
+        lo = res["loose_b1"][0]
+        vals = case.get("vals")
+        if lacking and vals and lo is not None and any(getattr(lo, p) != vals[p] for p in present if p in vals):
+            cls.append("construction-not-confirmed")
+            lacking = []
         if lacking:
             return fail("accepts-incomplete", "result although the string does not state %s" % lacking)
     return {"ok": True, "key": key, "cls": cls}
@@ -240,7 +247,8 @@ def cases(draw):
         if zero and has["day"]:
             numeric_ambiguous = True  # no claim about which parts a zero field states; the metamorphic relations still apply
             c["zero_field"] = True
-        c.update(s=body, lang=lang, present=None if numeric_ambiguous else [p for p in PARTS if has[p]])
+        c.update(s=body, lang=lang, present=None if numeric_ambiguous else [p for p in PARTS if has[p]],
+                 vals={"day": d, "month": m, "year": y})
     return c
 
 
